@@ -16,15 +16,17 @@ G_, F_, M_ = "G", "F", "M"     # genuine / forged / missing
 
 
 # --------------------------------------------------------------------------- passive monitor
-def attach_monitor(ck, prefix="monitor-"):
+def attach_monitor(ck, prefix="hashtree-"):
     """Wrap IncompleteHashTree.set_hashes at class level (icontract-style post-condition / invariant).
 
     After every call, whatever the caller:
       * exception  => list(tree) identical to the snapshot taken before the call
       * success    => every internal node whose two children are known equals pair_hash(children),
                       and no node that was known before the call changed or disappeared.
-    Violations are reported on `ck` under '<prefix>state-changed-on-reject', '<prefix>inconsistent-tree',
-    '<prefix>known-node-changed'.  Returns a zero-argument detach function.
+    Violations are reported on `ck` under '<prefix>state-changed-on-reject' ('<prefix>out-of-range-index-not-rolled-back'
+    when the exception is the IndexError of an out-of-range hash index), '<prefix>inconsistent-tree',
+    '<prefix>known-node-changed'.  Evaluations are counted as monitors 'monitor-rollback' / 'monitor-consistency'.
+    Returns a zero-argument detach function.
     """
     from allmydata import hashtree
     cls = hashtree.IncompleteHashTree
@@ -46,16 +48,17 @@ def attach_monitor(ck, prefix="monitor-"):
         try:
             res = orig(self, hashes, leaves)
         except BaseException as e:
-            ck.mon(prefix + "rollback")
+            ck.mon("monitor-rollback")
             if list(self) != before:
                 changed = [i for i in range(min(len(self), len(before))) if self[i] != before[i]]
-                ck.violation(prefix + "state-changed-on-reject",
+                oob = isinstance(e, IndexError) and any(not (-len(self) <= i < len(self)) for i in (hashes or {}))
+                ck.violation(prefix + ("out-of-range-index-not-rolled-back" if oob else "state-changed-on-reject"),
                              "set_hashes raised %s but nodes %r changed" % (type(e).__name__, changed[:10]),
                              {"exception": "%s: %s" % (type(e).__name__, e), "changed_nodes": changed[:20],
                               "hash_indices": sorted(hashes or {})[:40], "leaf_indices": sorted(leaves or {})[:40],
                               "tree_size": len(self)})
             raise
-        ck.mon(prefix + "consistency")
+        ck.mon("monitor-consistency")
         bad = consistent(self)
         if bad is not None:
             ck.violation(prefix + "inconsistent-tree",
@@ -106,15 +109,32 @@ class World(object):
                 return "internal node %d" % i
         return None
 
-    def fresh(self, prelude=()):
-        """IncompleteHashTree seeded with the trusted root, then `prelude` leaves validated genuinely."""
+    def fresh(self, prelude=(), ck=None):
+        """IncompleteHashTree seeded with the trusted root, then `prelude` leaves validated genuinely.
+        A failing genuine prelude is itself a verdict ('genuine-rejected'); PreludeFailed tells the caller to skip."""
         t = self.ht.IncompleteHashTree(self.n)
-        t.set_hashes({0: self.G[0]})
-        for j, a in enumerate(prelude):
-            need = t.needed_hashes(a, include_leaf=bool(j % 2))
-            hs = dict((i, self.G[i]) for i in need)
-            t.set_hashes(hs, leaves={a: self.G[self.first + a]})
+        step = "root"
+        try:
+            t.set_hashes({0: self.G[0]})
+            for j, a in enumerate(prelude):
+                step = "leaf %d" % a
+                need = t.needed_hashes(a, include_leaf=bool(j % 2))
+                hs = dict((i, self.G[i]) for i in need)
+                t.set_hashes(hs, leaves={a: self.G[self.first + a]})
+        except Exception as e:
+            if ck is not None:
+                ck.mon("completeness-oracle")
+                ck.violation("genuine-rejected",
+                             "validating genuine %s with exactly the hashes needed_hashes() asked for failed: %s: %s"
+                             % (step, type(e).__name__, e),
+                             {"nleaves": self.n, "validation_order": list(prelude), "failed_at": step,
+                              "exception": "%s: %s" % (type(e).__name__, e)})
+            raise PreludeFailed(step)
         return t
+
+
+class PreludeFailed(Exception):
+    pass
 
 
 def short(d):
@@ -187,10 +207,17 @@ class Judge(object):
             ck.mon("soundness-oracle")
             # 1. no forged leaf accepted (whether or not it is remembered)
             sup_leaves = dict((W.first + j, v) for j, v in (leaves or {}).items())
+            conflicting = False
             for i, v in (hashes or {}).items():
                 if W.first <= i < W.size:
-                    sup_leaves.setdefault(i, v)
+                    if i in sup_leaves and sup_leaves[i] != v:
+                        conflicting = True      # two different values for one leaf in one call: which one was
+                    sup_leaves.setdefault(i, v)  # "accepted" is open -> judged by the stored value only (rule 1)
+            if conflicting:
+                ck.skip("conflicting-leaf-arguments-accepted")
             for i, v in sorted(sup_leaves.items()):
+                if conflicting:
+                    break
                 if i < W.size and v != W.G[i]:
                     build()["forged_leaf_node"] = i
                     ck.violation("forged-leaf-accepted",
@@ -232,35 +259,29 @@ def run(ck):
                "validation orders over 1..64 leaves with interleaved forgeries. distinct = distinct (shape, known-set, "
                "supplied index->symbol map); non-trivial = at least one supplied hash")
     J = Judge(ck, hashtree)
-    detach = attach_monitor(ck)
+    _directed(ck, hashtree, ck.rng("directed"))   # before the monitor is armed: its two-step witness is the one recorded
+    detach = attach_monitor(ck, prefix="")
     try:
         _run(ck, hashtree, J)
     finally:
         detach()
     ck.require_monitor("soundness-oracle", "rollback-oracle", "completeness-oracle", "genuine-tree-wellformed",
-                       "monitor-rollback", "monitor-consistency")
+                       "monitor-rollback", "monitor-consistency", "final-state")
     ck.require_reach("reject-BadHashError", "reject-NotEnoughHashesError", "reject-IndexError", "padding-leaf-in-chain",
                      "forged-consistent-subchain", "conflict-with-known-node", "alt-tree-chain")
     ck.skip("negative-index-not-wire-encodable")
 
 
-def _run(ck, hashtree, J):
-    rng = ck.rng("worlds")
-    depth = 2
-    maxn = 8
-    complete = True
-    case_idx = 0
-    thorough = ck.tier == "thorough"
-    sizes = list(range(1, maxn + 1))
-    if thorough:
-        sizes += [9, 11, 13, 16]       # depth<=1 states only (see below)
-
+def _directed(ck, hashtree, rng):
     # ---- directed two-step scenario first (so that its witness is the one recorded if it fires):
     # a rejected call carrying an out-of-range index must not leave unvalidated hashes behind that a later
     # call then trusts.
     for n in (4, 5, 8):
         W = World(hashtree, rng, n)
-        t = W.fresh()
+        try:
+            t = W.fresh((), ck)
+        except PreludeFailed:
+            continue
         tgt = 0
         first = W.first
         forged_leaf = W.F[first + tgt]
@@ -277,8 +298,16 @@ def _run(ck, hashtree, J):
             continue
         poison_call = dict(poison)
         poison_call[W.size + 7] = W.F[0]               # out-of-range index, iterated last
-        v1 = J.call(W, t, poison_call, None, {"scenario": "poison-then-forge step 1 (out-of-range index after a forged node)"})
-        hs = dict((s, W.G[s]) for s in chain[:-1])
+        before1 = list(t)
+        try:
+            t.set_hashes(poison_call)
+            step1 = "accepted"
+        except Exception as e:
+            step1 = type(e).__name__
+            ck.hit("reject-" + step1)
+        ck.mon("rollback-oracle")
+        left = [i for i in range(len(t)) if t[i] != before1[i]]
+        hs = dict((s_, W.G[s_]) for s_ in chain[:-1])
         before = list(t)
         try:
             t.set_hashes(hs, leaves={tgt: forged_leaf})
@@ -286,14 +315,34 @@ def _run(ck, hashtree, J):
         except (hashtree.BadHashError, hashtree.NotEnoughHashesError):
             accepted = False
         ck.mon("soundness-oracle")
-        if accepted:
-            ck.violation("out-of-range-index-not-rolled-back",
-                         "a call rejected with IndexError left forged node %d in the tree; a later call then accepted a forged leaf" % node,
-                         {"nleaves": n, "step1_hashes": short(poison_call), "step1_exception": "IndexError",
-                          "step2_hashes": short(hs), "step2_leaves": short({tgt: forged_leaf}),
-                          "genuine_leaf": W.G[first + tgt][:4].hex(), "accepted_forged_leaf": True,
+        if left or accepted:
+            key = ("out-of-range-index-not-rolled-back" if (left and step1 == "IndexError")
+                   else "forged-leaf-accepted" if accepted else "state-changed-on-reject")
+            ck.violation(key,
+                         "step 1: set_hashes(%r) (forged node + out-of-range index) -> %s, %s; "
+                         "step 2: set_hashes(genuine siblings %r, leaves={%d: FORGED}) then %s"
+                         % (sorted(poison_call), step1,
+                            ("the unvalidated forged node(s) %r were left in the tree" % left) if left else "tree rolled back",
+                            sorted(hs), tgt,
+                            "ACCEPTED the forged leaf" if accepted else "rejected the forged leaf"),
+                         {"nleaves": n, "tree_size": W.size, "step1_hashes": short(poison_call), "step1_outcome": step1,
+                          "nodes_left_behind": left, "step2_hashes": short(hs), "step2_leaves": short({tgt: forged_leaf}),
+                          "genuine_leaf": W.G[first + tgt][:4].hex(), "step2_accepted_forged_leaf": accepted,
                           "known_before_step2": [i for i, x in enumerate(before) if x is not None]})
+        v1 = step1
         ck.case("poison-then-forge", key=("ptf", n), nontrivial=True, sample={"nleaves": n, "step1": v1, "step2_accepted": accepted})
+
+
+
+def _run(ck, hashtree, J):
+    rng = ck.rng("worlds")
+    depth = 2
+    maxn = 8
+    complete = True
+    case_idx = 0
+    thorough = ck.tier == "thorough"
+    sizes = list(range(1, maxn + 1))
+    sizes += [9, 11, 12, 13, 15, 16] if thorough else [9, 13, 16]   # beyond the stated bound (5-node chains)
 
     # ---- exhaustive part
     for n in sizes:
@@ -305,14 +354,17 @@ def _run(ck, hashtree, J):
             continue
         W2 = World(hashtree, rng, n)                  # a different tree of the same shape
         first = W.first
-        d = depth if n <= maxn else 1
-        if thorough and n <= 4:
+        d = depth if n <= maxn else (2 if thorough else 1)
+        if thorough and n <= maxn:
             d = 3
         # reachable states, deduplicated by known-set
         states = {}
         for k in range(d + 1):
             for seq in itertools.product(range(n), repeat=k):
-                t = W.fresh(seq)
+                try:
+                    t = W.fresh(seq, ck)
+                except PreludeFailed:
+                    continue
                 ks = frozenset(i for i, h in enumerate(t) if h is not None)
                 states.setdefault(ks, seq)
         for ks, seq in sorted(states.items(), key=lambda kv: (len(kv[1]), kv[1])):
@@ -323,13 +375,19 @@ def _run(ck, hashtree, J):
                 if ck.out_of_time():
                     complete = False
                     break
-                _enumerate_target(ck, hashtree, J, W, W2, seq, ks, tgt)
+                try:
+                    _enumerate_target(ck, hashtree, J, W, W2, seq, ks, tgt)
+                except PreludeFailed:
+                    pass
             if not complete:
                 break
         if not complete:
             break
-    ck.extra["exhaustive_bound"] = {"max_leaves": maxn, "state_depth": depth, "complete": complete}
-    ck.exhaustive = bool(complete)
+        if n == maxn:
+            ck.extra["stated_bound_complete"] = True
+    ck.extra["exhaustive_bound"] = {"max_leaves": maxn, "state_depth": depth, "also_enumerated_sizes": sizes[maxn:],
+                                    "complete": bool(ck.extra.get("stated_bound_complete")), "all_sizes_complete": complete}
+    ck.exhaustive = bool(ck.extra.get("stated_bound_complete"))
 
     # ---- seeded random validation orders, up to 64 leaves
     _random_orders(ck, hashtree, J)
@@ -342,7 +400,10 @@ def _enumerate_target(ck, hashtree, J, W, W2, seq, ks, tgt):
     chain = [leafnode] + sibs
     if any(first + W.n <= s < W.size for s in sibs):
         ck.hit("padding-leaf-in-chain")
-    t = W.fresh(seq)
+    try:
+        t = W.fresh(seq, ck)
+    except PreludeFailed:
+        return
     offchain = [i for i in range(1, W.size) if i not in chain and i != 0]
     unknown_off = [i for i in offchain if i not in ks]
     known_nodes = [i for i in ks if i != 0 and i not in chain]
@@ -351,10 +412,11 @@ def _enumerate_target(ck, hashtree, J, W, W2, seq, ks, tgt):
         extras += ["forged-offchain", "genuine-unvalidatable"]
     extras.append("conflict-known")
     extras.append("out-of-range")
+    extras.append("leaf-args-conflict")
     statekey = (W.n, tuple(sorted(ks)))
 
     def rebuild():
-        return W.fresh(seq)
+        return W.fresh(seq, ck)
 
     for assign in itertools.product((G_, F_, M_), repeat=len(chain)):
         for xi, extra in enumerate(extras):
@@ -384,6 +446,15 @@ def _enumerate_target(ck, hashtree, J, W, W2, seq, ks, tgt):
                 ck.hit("conflict-with-known-node")
             elif extra == "out-of-range":
                 hashes[W.size + (tgt % 3)] = W.F[0]
+            elif extra == "leaf-args-conflict":
+                # the leaf is given twice, with different values, through hashes= and leaves=
+                a = assign[0]
+                if a == M_:
+                    continue
+                hashes[leafnode] = W.G[leafnode] if a == G_ else W.F[leafnode]
+                leaves = {tgt: W.F[leafnode] if a == G_ else W.G[leafnode]}
+                genuine_only = False
+                ck.hit("leaf-args-conflict")
             asked = t.needed_hashes(tgt, include_leaf=False)
             supplied_nodes = set(hashes) | (set([leafnode]) if leaves else set())
             must = None
@@ -448,9 +519,16 @@ def _enumerate_target(ck, hashtree, J, W, W2, seq, ks, tgt):
             t = rebuild()
 
 
+def _refresh(W, done):
+    try:
+        return W.fresh(done)
+    except PreludeFailed:
+        return None
+
+
 def _random_orders(ck, hashtree, J):
     rng = ck.rng("orders")
-    ntrees = {"quick": 120, "thorough": 500}[ck.tier]
+    ntrees = {"quick": 400, "thorough": 1500}[ck.tier]
     special = [1, 2, 3, 4, 5, 7, 8, 9, 15, 16, 17, 31, 32, 33, 47, 63, 64]
     for ti in range(ntrees):
         if ck.out_of_time():
@@ -463,7 +541,10 @@ def _random_orders(ck, hashtree, J):
         if bad:
             ck.violation("genuine-tree-malformed", "HashTree(%d leaves) malformed at %s" % (n, bad), {"nleaves": n})
             continue
-        t = W.fresh()
+        try:
+            t = W.fresh((), ck)
+        except PreludeFailed:
+            continue
         first = W.first
         order = list(range(n))
         rng.shuffle(order)
@@ -471,6 +552,7 @@ def _random_orders(ck, hashtree, J):
             order = order + [rng.randrange(n) for _ in range(3)]     # re-validate some leaves
         pos = 0
         steps = []
+        done = []
         while pos < len(order):
             group = order[pos:pos + (1 if rng.random() < 0.75 else rng.randint(2, 4))]
             pos += len(group)
@@ -510,7 +592,9 @@ def _random_orders(ck, hashtree, J):
                 v = J.call(W, t, hashes, {a: leafv}, {"scenario": "random attack " + mode, "target_leaf": a,
                                                       "validated_so_far": steps[-12:]})
                 if v == "violated":
-                    t = W.fresh(); steps = []
+                    t = _refresh(W, done)
+                    if t is None:
+                        break
             # --- the genuine validation of `group` (must be accepted)
             incl = rng.random() < 0.5
             asked = set()
@@ -530,8 +614,14 @@ def _random_orders(ck, hashtree, J):
                                                   "include_leaf": incl, "validated_so_far": steps[-12:],
                                                   "asked": sorted(asked)}, must_accept=must)
             steps.append(group if len(group) > 1 else group[0])
+            done.extend(group)
             if v == "violated":
-                t = W.fresh(); steps = []
+                t = _refresh(W, done)
+                if t is None:
+                    break
+        if t is None:
+            ck.case("random-order", key=(n, tuple(order)), nontrivial=n > 1)
+            continue
         # at the end every real leaf is known and genuine; nothing more is needed
         ck.mon("final-state")
         for a in range(n):
